@@ -630,6 +630,48 @@ func crashIndex(r *core.Report, cs *crashScope, floor int) {
 				if onlySearched {
 					return true // router construction: only the searched-position clause (see c10)
 				}
+				// two lists computed by two functions and paired by position: B[i] inside `for i := range A`
+				if rs, ok := n.(*ast.RangeStmt); ok && rs.Key != nil {
+					if kid, ok := rs.Key.(*ast.Ident); ok && kid.Name != "_" {
+						aCall := producerCall(info, ff, rs.X)
+						if aCall != nil {
+							ast.Inspect(rs.Body, func(m ast.Node) bool {
+								ix, ok := m.(*ast.IndexExpr)
+								if !ok {
+									return true
+								}
+								iid, ok := ast.Unparen(ix.Index).(*ast.Ident)
+								if !ok || info.ObjectOf(iid) != info.ObjectOf(kid) {
+									return true
+								}
+								if _, isSlice := info.TypeOf(ix.X).Underlying().(*types.Slice); !isSlice {
+									return true
+								}
+								bCall := producerCall(info, ff, ix.X)
+								if bCall == nil || core.CalleeOf(info, bCall) == core.CalleeOf(info, aCall) {
+									return true
+								}
+								// an explicit length test on the path settles it
+								for _, a := range core.Atoms(core.GuardsAt(info, fd.Body, ix)) {
+									if strings.Contains(core.ExprStr(a.Expr), "len("+core.ExprStr(ix.X)+")") {
+										return true
+									}
+								}
+								na++
+								name := shortFn(fn)
+								perFn[name+"/paired"]++
+								key := fmt.Sprintf("idx:%s/paired#%d(%s[%s] over %s)", name, perFn[name+"/paired"], core.ExprStr(ix.X), iid.Name, core.ExprStr(rs.X))
+								why := pairedProducers(p, core.CalleeOf(info, aCall), core.CalleeOf(info, bCall))
+								if why == "" {
+									r.OK(key, p.Pos(ix.Pos()), "both lists get one entry per occurrence of the same token of the same text, unconditionally")
+								} else {
+									r.Bad(key, p.Pos(ix.Pos()), fmt.Sprintf("%s is indexed with the position in %s, a list computed by another function, and nothing here relates their lengths; the producers do not obviously agree either: %s — when the indexed list is the shorter one this panics (index out of range)", core.ExprStr(ix.X), core.ExprStr(rs.X), why))
+								}
+								return true
+							})
+						}
+					}
+				}
 				var base ast.Expr
 				need := 0
 				switch x := n.(type) {
@@ -2074,6 +2116,97 @@ func verifyMuxMethods(p *core.Prog) string {
 	}
 	if paths == 0 || withMethods < paths {
 		return fmt.Sprintf("%d mux routes are registered with Path(...) but only %d get a Methods(...) matcher", paths, withMethods)
+	}
+	return ""
+}
+
+// producerCall: the call whose result the expression (an identifier assigned once, from a call) holds.
+func producerCall(info *types.Info, ff *core.FuncFacts, e ast.Expr) *ast.CallExpr {
+	id, ok := ast.Unparen(e).(*ast.Ident)
+	if !ok {
+		return nil
+	}
+	var as []core.Assign
+	for _, a := range ff.Assigns(info.ObjectOf(id)) {
+		if vs, isDecl := a.Stmt.(*ast.ValueSpec); isDecl && len(vs.Values) == 0 {
+			continue // `var x []T`: the zero value before the one assignment
+		}
+		as = append(as, a)
+	}
+	if len(as) != 1 {
+		return nil
+	}
+	call := as[0].Call
+	if call == nil && as[0].Rhs != nil {
+		call, _ = ast.Unparen(as[0].Rhs).(*ast.CallExpr)
+	}
+	if call == nil {
+		return nil
+	}
+	if f := core.CalleeOf(info, call); f == nil || !core.InRepo(f.Pkg()) {
+		return nil
+	}
+	return call
+}
+
+// pairedProducers: two functions whose results are paired by position each append to their result
+// unconditionally, once per round of their scanning loop: every append to a slice that is returned
+// stands under comparisons only (the scan's own tests: a byte, a position, a length), never under a
+// membership test, a flag or a call. Returns "" when that holds, the offending condition otherwise.
+func pairedProducers(p *core.Prog, fs ...*types.Func) string {
+	for _, f := range fs {
+		fd := p.Decl(f)
+		if fd == nil || fd.Body == nil {
+			// a thin wrapper without a body of its own cannot be judged
+			return "no body for " + f.Name()
+		}
+		info := p.InfoFor(f.Pkg())
+		// wrappers (Servers.MatchURL -> Server.MatchRawURL): follow a single delegate call
+		found := false
+		var bad string
+		var visit func(fd *ast.FuncDecl, depth int)
+		visit = func(fd *ast.FuncDecl, depth int) {
+			ast.Inspect(fd.Body, func(n ast.Node) bool {
+				as, ok := n.(*ast.AssignStmt)
+				if ok && len(as.Rhs) == 1 {
+					if c, ok := ast.Unparen(as.Rhs[0]).(*ast.CallExpr); ok {
+						if id, ok := ast.Unparen(c.Fun).(*ast.Ident); ok && id.Name == "append" {
+							found = true
+							for _, a := range core.Atoms(core.GuardsAt(info, fd.Body, as)) {
+								if be, ok := ast.Unparen(a.Expr).(*ast.BinaryExpr); ok {
+									switch be.Op {
+									case token.EQL, token.NEQ, token.LSS, token.LEQ, token.GTR, token.GEQ:
+										continue
+									}
+								}
+								if bad == "" {
+									bad = fmt.Sprintf("%s appends under `%s`", core.FuncName(fd), core.ExprStr(a.Expr))
+								}
+							}
+						}
+					}
+				}
+				if c, ok := n.(*ast.CallExpr); ok && depth < 2 {
+					if g := core.CalleeOf(info, c); g != nil && core.InRepo(g.Pkg()) && g != f {
+						if sig, ok := g.Type().(*types.Signature); ok && sig.Results().Len() > 0 {
+							if _, isSlice := sig.Results().At(0).Type().Underlying().(*types.Slice); isSlice {
+								if gd := p.Decl(g); gd != nil && gd.Body != nil && p.InfoFor(g.Pkg()) == info {
+									visit(gd, depth+1)
+								}
+							}
+						}
+					}
+				}
+				return true
+			})
+		}
+		visit(fd, 0)
+		if !found {
+			return f.Name() + " has no append to judge"
+		}
+		if bad != "" {
+			return bad
+		}
 	}
 	return ""
 }
